@@ -15,7 +15,7 @@ claimed = {
    "Single-signer envelopes. The library's Verify is not asserted on documents edited without recalculation (header-only check by design); CLI paths must refuse those. Keys are fixed JWK constants; signature bytes are never compared, only outcomes.",
    "deterministic simulation: sign/modify/restart histories against a header-snapshot reference model, cross-checked over 7 entry points"),
  "C10": ("exploration", "§5 C10",
-   "Refinement of the envelope API against a small executable reference model (digest-matches fact, document validity facts, signature list with header snapshots, header rules) over histories: exhaustive enumeration of every operation sequence up to length 3 (quick) / 4 (thorough) over a 14-operation alphabet and, in thorough, of every sequence of length 5 and 6 over an 8-operation core alphabet, on three base documents (two invoices and an order), plus seeded longer histories over 12 base documents of 6 document types with crash-restart, lost-write, re-encoding and damaged-signature-list faults injected between operations. Each step's outcome (ok / error key / signature count) must equal the model's prediction; after every step every entry of the signature list must be a real JWS, or, when the list was damaged on disk, the envelope must be refused by validation and verification without panicking.",
+   "Refinement of the envelope API against a small executable reference model (digest-matches fact, document validity facts, signature list with header snapshots, header rules) over histories: exhaustive enumeration of every operation sequence up to length 3 (quick) / 4 (thorough) over a 15-operation alphabet and, in thorough, of every sequence of length 5 and 6 over an 8-operation core alphabet, on three base documents (two invoices and an order), plus seeded longer histories over 12 base documents of 6 document types with crash-restart, lost-write, re-encoding and damaged-signature-list faults injected between operations. Each step's outcome (ok / error key / signature count) must equal the model's prediction; after every step every entry of the signature list must be a real JWS, or, when the list was damaged on disk, the envelope must be refused by validation and verification without panicking.",
    "Which documents are structurally valid is asked of the implementation on a fresh parse of the same bytes (the property is about how the facts combine over histories). After a signing that fails before appending, 'unchanged' and 'unsigned' are both accepted.",
    "deterministic simulation: exhaustive short histories + seeded long histories with restart faults, refinement against an executable reference model"),
  "C16": ("exploration", "§5 C16",
